@@ -17,7 +17,7 @@ from val import Stream, same
 ID = 'C01'
 COQ_PROP = 'C01'
 LEVEL = 'proof'
-TRANSLATE = ['disk', 'sql', 'persistent']      # sql: the paths of Cache.set/add/push and _transact a value travels through; persistent: Deque / Index element access
+TRANSLATE = ['disk', 'sql', 'persistent', 'fanout', 'django']      # sql: the paths of Cache.set/add/push and _transact a value travels through; persistent: Deque / Index element access
 TRUSTED = [
     'coq/base/Val.v: CPython sqlite3 binding (int64 range, NaN->NULL, lone surrogates rejected) and column decoding; coq/base/DiskBase.v: POSIX text-mode newline semantics of open(); both hand-written, compared with the implementation on every case of this run',
     'codec hypotheses (Section-free, explicit premises of the theorems): pickle.load(pickle.dumps(v, protocol)) = v; json/zlib round trip for JSONDisk; UTF-8 is injective on text without lone surrogates. Checked on every generated value',
